@@ -505,7 +505,8 @@ def wire_term(it, obs):
     else:
         k, hdr, data = 2, [it[x] for x in ("wk", "fk", "nch", "b", "h", "np")], it["frames"]
         ops = [[OPCODE[o[0]]] + list(o[1:]) for o in it["ops"]]
-    return f"(({k}, {wl(hdr)}, {wll(data)}, {wll(ops)}, {wll(obs)})%uint63)"
+    # (an empty op list is given its type: a batch of window cases alone has no op anywhere to infer it from)
+    return f"(({k}, {wl(hdr)}, {wll(data)}, {wll(ops) if ops else '(@nil (list int))'}, {wll(obs)})%uint63)"
 
 
 def correspond63(binpath, items, tag):
@@ -625,32 +626,39 @@ def proof_phase(rep, terr):
 
 def gen_search(rep, binpath, items, outl, broken):
     """the regenerated model (Signal/WindowGenRun.v) on the window / windower cases of the correspondence: against
-    the crate's observations and against the hand model.  -> (n_cases, n_vs_crate, n_vs_hand, note) and registers a
-    VIOLATION with replay for the first failing input"""
+    the crate's observations and against the hand model.  -> (n_cases, n_failing, n_vs_crate, n_vs_hand, note) -- the last
+    two among the (at most 120) smallest failing cases -- and registers a VIOLATION with replay for the first failing input"""
     ok, log = F.coq_make("theories/Signal/WindowGenRun.vo")
     if not ok:
-        return 0, None, None, "the regenerated model does not compile, it cannot be run: " + " ".join(log[-600:].split())
-    keep = [i for i, it in enumerate(items) if it["kind"] == "W"]
+        return 0, None, None, None, "the regenerated model does not compile, it cannot be run: " + " ".join(log[-600:].split())
+    # the window / windower cases, cheapest first (frames x bin), at most 1200 of them: every class of (L, bin, hop) of
+    # the grid occurs among the small ones, and a failure run should not take many times longer than a passing one
+    keep = sorted((i for i, it in enumerate(items) if it["kind"] == "W"),
+                  key=lambda i: ((len(items[i]["ops"]) + 1) * (items[i]["b"] + 2) * items[i]["nch"], i))[:1200]
     items, outl = [items[i] for i in keep], [outl[i] for i in keep]
     try:
         terms = [wire_term(it, F.norm_obs_line(o)) for it, o in zip(items, outl)]
     except ValueError as e:
-        return len(items), None, None, f"unparsable observation line: {e}"
+        return len(items), None, None, None, f"unparsable observation line: {e}"
     pf = max(40, (len(terms) + F.NCPU - 1) // F.NCPU)
     bad_any, e1 = F.coq_check_cases("c20_gen", GEN_HEADER63, "both63_gen", terms, per_file=pf)
     if e1:
-        return len(items), None, None, "the regenerated model could not be evaluated: " + str(e1[0])[:600]
+        return len(items), None, None, None, "the regenerated model could not be evaluated: " + str(e1[0])[:600]
+    # which of the two comparisons fails is decided on the smallest failing cases only (in the property's domain first)
+    dom = lambda i: (not (items[i]["b"] >= 2 and items[i]["h"] >= 1), len(items[i]["ops"]), items[i]["b"], items[i]["h"])  # noqa: E731
+    n_any = len(bad_any)
+    bad_any = sorted(bad_any, key=dom)[:120]
     sub = [terms[i] for i in bad_any]
     bc, e1 = F.coq_check_cases("c20_gen_crate", GEN_HEADER63, "check63_gen", sub, per_file=pf)
     bh, e2 = F.coq_check_cases("c20_gen_hand", GEN_HEADER63, "agree63_gen", sub, per_file=pf)
     if e1 or e2:
-        return len(items), None, None, "the regenerated model could not be evaluated: " + str((e1 + e2)[0])[:600]
+        return len(items), None, None, None, "the regenerated model could not be evaluated: " + str((e1 + e2)[0])[:600]
     bad_crate, bad_hand = [bad_any[i] for i in bc], [bad_any[i] for i in bh]
     for tag, bad, fn, what in (("crate", bad_crate, "check63_gen", "the crate"), ("hand", bad_hand, "agree63_gen", "the hand model")):
         if not bad:
             continue
-        # the smallest failing case first (fewest frames), then shrink its frame list
-        idx = min(bad, key=lambda i: (len(items[i]["ops"]), items[i]["b"], items[i]["h"]))
+        # the smallest failing case in the property's domain (fewest frames), then shrink its frame list
+        idx = min(bad, key=dom)
         it = items[idx]
 
         def fails(c):
@@ -663,7 +671,7 @@ def gen_search(rep, binpath, items, outl, broken):
                 return False
             return bool(b) and not e
 
-        small = F.shrink_ops(it, build, fails, max_steps=30)
+        small = F.shrink_ops(it, build, fails, max_steps=10)
         rc, out, _ = F.run_bin(binpath, [small["line"]])
         obs = F.zlistlist(F.norm_obs_line(out[0]) if out else [])
         _, gmodel = F.coq_eval("c20", GEN_HEADER, f"run_case_gen ({small['coq']}) {obs}")
@@ -675,10 +683,11 @@ def gen_search(rep, binpath, items, outl, broken):
             "harness_line": small["line"], "implementation_observations": out,
             "generated_model_observations": gmodel[-3000:], "hand_model_observations": hmodel[-3000:],
             "observation_format": "1 lo 1 hi = size_hint (lo, Some(hi)); 2 samples.. = the first bin+2 frames of a chunk; 3 = None; 8 k = panic; 100 = window phases, 101 = window values, 102/104 = Window iterator frames",
-            "failing_cases_in_this_run": len(bad), "cases_run_on_the_generated_model": len(items),
+            "failing_cases_in_this_run": n_any, "of_the_smallest_120_failing": {"against_the_crate": len(bad_crate), "against_the_hand_model": len(bad_hand)},
+            "cases_run_on_the_generated_model": len(items),
             "replay": "./check.py C20 --replay <this file>"})
         break
-    return len(items), len(bad_crate), len(bad_hand), None
+    return len(items), n_any, len(bad_crate), len(bad_hand), None
 
 
 def main(rep, tier, seed):
@@ -769,19 +778,19 @@ def main(rep, tier, seed):
         search = {"hand_model_vs_crate_failing": len(bad), "verdict_failures": len(vbad), "cases": len(items)}
         found = bool(bad) or bool(vbad)
         if broken["stage"] in ("equivalence", "proof") and not errors:
-            ng, nc, nh, note = gen_search(rep, binpath, items, outl, broken)
-            search.update(cases_run_on_the_generated_model=ng, generated_vs_crate_failing=nc, generated_vs_hand_failing=nh, note=note)
-            found = found or bool(nc) or bool(nh)
+            ng, na, nc, nh, note = gen_search(rep, binpath, items, outl, broken)
+            search.update(cases_run_on_the_generated_model=ng, generated_model_failing=na, of_the_smallest_120_vs_crate=nc, of_the_smallest_120_vs_hand_model=nh, note=note)
+            found = found or bool(na)
         if not found:
             rep.violation("translator_tie_broken", dict(
                 kind=broken["message"] + " -- and no failing input was found: the hand model still agrees with the crate on every case"
-                     + (", and so does the regenerated model" if search.get("generated_vs_crate_failing") == 0 else ""),
+                     + (", and so does the regenerated model" if search.get("generated_model_failing") == 0 else ""),
                 search=search, **broken), no_input=True)
         info["search"] = search
     elif tier == "thorough" and not errors and not bad:
         # the search tool itself is exercised while nothing is broken: the runner of the generated model must agree everywhere
-        ng, nc, nh, note = gen_search(rep, binpath, items, outl, dict(stage="none", message="self-test of the generated-model runner: the equivalence is proved, yet the runner of the generated model disagrees (fault in Signal/WindowGenRun.v or lib/props/c20.py)"))
-        info["generated_runner_self_test"] = dict(cases=ng, generated_vs_crate_failing=nc, generated_vs_hand_failing=nh, note=note)
+        ng, na, nc, nh, note = gen_search(rep, binpath, items, outl, dict(stage="none", message="self-test of the generated-model runner: the equivalence is proved, yet the runner of the generated model disagrees (fault in Signal/WindowGenRun.v or lib/props/c20.py)"))
+        info["generated_runner_self_test"] = dict(cases=ng, generated_model_failing=na, note=note)
         if note:
             rep.violation("generated_runner", {"kind": "the runner of the generated model could not be evaluated", "log": note}, no_input=True)
     # distribution
